@@ -7,7 +7,7 @@ mixin, removal of the optional `id` the provider hooks probe) and seeded edit se
 re-validated against lsp.schema.json:
   * all four plugins must terminate successfully on it;
   * python: the emitted module must import next to the unchanged runtime files; the C04 and C09
-    oracles and the C01 / C03 / C10 / C14 oracles run on the evolved package;
+    oracles and the C01 / C03 / C10 / C14 / C20 oracles run on the evolved package;
   * rust / dotnet: the emitted text is parsed (x_rust / x_dotnet) and the Lean conformance
     checkers of C07 / C08 are evaluated on the evolved tables (`lean` evaluation of the same
     definitions whose kernel evaluation C07 / C08 use for the committed model);
@@ -96,6 +96,19 @@ def one_model(ctx, idx, tag, desc, doc, seed, schema):
                         if any(k in m["site"] for k in KNOWN_ELSEWHERE.get(prop, [])):
                             continue
                         fails.append((prop, f"{m['site']}|{m['aspect']}", f"expected {m['expected'][:150]}, observed {m['observed'][:150]}", m.get("input")))
+                # C20 on the evolved package: the comparison / repr of Position, Range, Location, stated directly (the C20 oracle) on the
+                # classes the current generator emits for this model
+                import props.c20 as c20
+                ops = c20.gen_ops(ctx)
+                q = common.run_py(common.VERIF / "tools/corr/cmp_impl.py", stdin="\n".join(ops) + "\n", check=False,
+                                  extra_env={"PYTHONPATH": f"{d / 'py'}:{common.REPO}"})
+                got = q.stdout.split("\n")[:-1]
+                if q.returncode != 0 or len(got) != len(ops):
+                    fails.append(("C20", "comparison-harness-crashed-on-evolved-package", q.stderr[-400:], None))
+                else:
+                    bad20 = [(o, c20.oracle(o), g) for o, g in zip(ops, got) if c20.oracle(o) is not None and c20.oracle(o) != g]
+                    for o, e, g in bad20[:3]:
+                        fails.append(("C20", "Position/Range/Location|" + o.split(" ")[0], f"{o}: expected {e}, observed {g}", o))
         # ---- rust / dotnet text -> tables -> Lean checkers
         r = py("tools/extract/x_rust.py", ["--model", str(mf)])
         n = py("tools/extract/x_dotnet.py", ["--model", str(mf)])
@@ -151,7 +164,7 @@ def one_model(ctx, idx, tag, desc, doc, seed, schema):
 def run(ctx):
     ctx.level = "exploration"
     ctx.rule = ("programs = evolved metamodels: one per edit kind of the property (corpus) + seeded edit sequences, each schema-validated; per model: 4 plugins "
-                "terminate, emitted python module imports, C04/C09/C01/C03/C10/C14 oracles on the evolved package, C07/C08 Lean checkers on the parsed rust / C# output, "
+                "terminate, emitted python module imports, C04/C09/C01/C03/C10/C14/C20 oracles on the evolved package, C07/C08 Lean checkers on the parsed rust / C# output, "
                 "C17 oracle on all evolved vectors; distinct = distinct evolved model; non-trivial = all (each differs from the committed model)")
     ctx.assumptions += ["a sample of the unbounded family of evolutions, not the for-all claim: the four generators are not modelled in Lean"]
     doc = json.load(open(common.REPO / "generator/lsp.json"))
